@@ -83,8 +83,10 @@ class Wrapper(Logic):
 
 
 def build_netlist(nl):
-    """nl = {'types': [...], 'i', 'o', 'assign': [...]} -> (hw, wrapper)"""
+    """nl = {'types': [...], 'i', 'o', 'assign': [...][, 'alias': 1]} -> (hw, wrapper)
+    alias: the two in-ports of the wrapper are bound to one and the same wire"""
     types, i, o, assign = nl['types'], nl['i'], nl['o'], nl['assign']
+    alias = bool(nl.get('alias'))
     src = schem.sources(types, i)
     snk = schem.sinks(types, o)
     hw = py4hw.HWSystem()
@@ -93,7 +95,7 @@ def build_netlist(nl):
     wires = []
     for n, s in enumerate(src):
         if s[0] == 'in':
-            w = hw.wire('i%d' % s[1])
+            w = wires[0] if (alias and s[1] == 1) else hw.wire('i%d' % s[1])
         else:
             # a wire that leaves through an out-port is created outside, the others are internal
             w = (hw if n in to_out else wr).wire('n%d_%d' % (s[1], s[2]))
@@ -128,13 +130,12 @@ def _self_check(nl, wr, wires):
     kids = list(wr.children.values())
     got = set()
     for e in wires.values():
-        d = e['drivers'][0][0]
-        dk = ('in', wr.inPorts.index(d)) if d in wr.inPorts else \
-            ('inst', kids.index(d), d.outPorts.index(e['drivers'][0][1]))
-        for r, p in e['readers']:
-            rk = ('out', wr.outPorts.index(r)) if r in wr.outPorts else ('inst', kids.index(r), r.inPorts.index(p))
-            got.add((dk, rk))
-    exp = {(e['driver'], r) for e in mdl.values() for r in e['readers']}
+        for d, dp in e['drivers']:
+            dk = ('in', wr.inPorts.index(d)) if d in wr.inPorts else ('inst', kids.index(d), d.outPorts.index(dp))
+            for r, p in e['readers']:
+                rk = ('out', wr.outPorts.index(r)) if r in wr.outPorts else ('inst', kids.index(r), r.inPorts.index(p))
+                got.add((dk, rk))
+    exp = {(d, r) for e in mdl.values() for d in e['drivers'] for r in e['readers']}
     if got != exp:
         raise core_error('netlist built by the harness differs from the enumerated one: %r' % (nl,))
 
@@ -145,7 +146,7 @@ def core_error(msg):
 
 
 def netlist_shapes(tier):
-    """-> list of (types, i, o) whose whole wiring space is enumerated"""
+    """-> list of (seq, i, o, alias) whose whole wiring space is enumerated"""
     L = schem.LETTER
     out = []
     allio = [(i, o) for i in range(3) for o in range(3)]
@@ -174,7 +175,9 @@ def netlist_shapes(tier):
     for seq, i, o in out:
         types = [L[x] for x in seq]
         if schem.space(types, i, o) > 0:
-            res.append((''.join(seq), i, o))
+            res.append((''.join(seq), i, o, 0))
+            if i == 2 and len(seq) <= 2:
+                res.append((''.join(seq), i, o, 1))         # both in-ports on one wire
     return res
 
 
@@ -308,7 +311,7 @@ def examine(block, order='fwd', wires=None):
             'signature': schem.drawing_signature(sch), 'wires': wires}
 
 
-_PRIORITY = ('same_wire_two_pins', 'comb_cycle', 'feedback', 'long_edge', 'fanout', 'port_to_port', 'other')
+_PRIORITY = ('self_loop', 'same_wire_two_pins', 'comb_cycle', 'feedback', 'long_edge', 'fanout', 'port_to_port', 'other')
 
 
 def netlist_family(block, wires, finding):
@@ -331,21 +334,32 @@ def summarize(findings):
 def shards(tier):
     out = []
     n = len(catalog.configs(tier, small=False))
-    step = 20
-    for lo in range(0, n, step):
-        out.append({'kind': 'catalog', 'tier': tier, 'lo': lo, 'hi': min(n, lo + step)})
-    for seq, i, o in netlist_shapes(tier):
+    of = max(1, n // (20 if tier == 'quick' else 45))
+    for k in range(of):                 # strided, so that every shard sees many different blocks
+        out.append({'kind': 'catalog', 'tier': tier, 'k': k, 'of': of})
+    # netlist shapes are packed into shards of about CHUNK netlists: parts = [seq, i, o, alias, lo, hi]
+    parts, size = [], 0
+    for seq, i, o, alias in netlist_shapes(tier):
         types = [schem.LETTER[x] for x in seq]
         sp = schem.space(types, i, o)
-        for lo in range(0, sp, CHUNK):
-            out.append({'kind': 'netlist', 'seq': seq, 'i': i, 'o': o, 'lo': lo, 'hi': min(sp, lo + CHUNK)})
+        lo = 0
+        while lo < sp:
+            hi = min(sp, lo + CHUNK - size)
+            parts.append([seq, i, o, alias, lo, hi])
+            size += hi - lo
+            lo = hi
+            if size >= CHUNK:
+                out.append({'kind': 'netlist', 'parts': parts})
+                parts, size = [], 0
+    if parts:
+        out.append({'kind': 'netlist', 'parts': parts})
     return out
 
 
 def cost(d):
     if d['kind'] == 'catalog':
-        return 10 ** 6 + d['lo']
-    return (d['hi'] - d['lo']) * len(d['seq'])
+        return 10 ** 6 - d['k']
+    return sum((p[5] - p[4]) * len(p[0]) for p in d['parts'])
 
 
 class _Acc:
@@ -355,7 +369,7 @@ class _Acc:
         self.per_sig = {}
         self.sigs = set()
         self.res = {'evaluations': 0, 'distinct_nontrivial': 0, 'skipped_precondition': 0, 'programs': 0,
-                    'configs': 0, 'samples': [], 'capped': False}
+                    'configs': 0, 'constructor_rejected': 0, 'samples': [], 'capped': False}
 
     def add(self, sig, detail):
         n = self.per_sig.get(sig, 0)
@@ -383,16 +397,18 @@ def run_shard(desc):
 
 
 def _run_netlists(desc, acc):
-    types = [schem.LETTER[x] for x in desc['seq']]
-    i, o = desc['i'], desc['o']
+    todo = [(seq, i, o, alias, idx) for seq, i, o, alias, lo, hi in desc['parts'] for idx in range(lo, hi)]
     timeouts = 0
-    for idx in range(desc['lo'], desc['hi']):
+    for n, (seq, i, o, alias, idx) in enumerate(todo):
+        types = [schem.LETTER[x] for x in seq]
         nl = {'types': types, 'i': i, 'o': o, 'assign': schem.assignment(types, i, o, idx)}
+        if alias:
+            nl['alias'] = 1
         hw, wr = build_netlist(nl)
         wires, problems = schem.truth(wr)
         if problems:
             raise core_error('enumerated netlist is outside the domain: %r %r' % (nl, problems))
-        if idx == desc['lo'] or idx == desc['hi'] - 1:
+        if n % 97 == 0:
             _self_check(nl, wr, wires)
         acc.res['programs'] += 1
         nontrivial = False
@@ -418,7 +434,7 @@ def _run_netlists(desc, acc):
             acc.res['distinct_nontrivial'] += 1
         if timeouts >= KEEP_PER_SIG:
             acc.res['capped'] = True
-            acc.res['abandoned_after_timeouts'] = desc['hi'] - idx - 1
+            acc.res['abandoned_after_timeouts'] = len(todo) - n - 1
             break
 
 
@@ -444,10 +460,14 @@ def build_catalog(source, cfg):
 
 
 def _run_catalog(desc, acc):
-    cfgs = catalog.configs(desc['tier'], small=False)[desc['lo']:desc['hi']]
+    cfgs = catalog.configs(desc['tier'], small=False)[desc['k']::desc['of']]
     for source, cfg in cfgs:
         acc.res['configs'] += 1
-        hw = build_catalog(source, cfg)
+        try:
+            hw = build_catalog(source, cfg)
+        except Exception:
+            acc.res['constructor_rejected'] += 1        # the block's constructor refuses this configuration
+            continue
         for path, node in _structural_nodes(hw):
             wires, problems = schem.truth(node)
             if problems:
